@@ -8,7 +8,10 @@ def find(ctx, oblig, diag):
         cases += [["h:x-amzn-trace-id=Root=1-5f84c7a9"], ["h:x-amz-meta-a= v1 ", "h:x-amz-meta-a=v2", "h:x-amz-acl=private"],
                   ["h:x-amz-meta-b=1", "h:x-amz-meta-a=2", "h:x-amzn-requestid=77", "acl"]]
     cases += [[], ["acl"], ["versionId=3"], ["torrent"], ["uploads"], ["response-content-type=text/plain", "versionId=1"]]
-    res = None
+    # sub-resources appended (once, twice) to a request signed without them must be refused
+    res = ctx["replay_tool"](["sigv2-append"])
+    if res.get("violates"):
+        res["source"] = "sub-resource parameters appended after signing"; return res
     for q in cases:
         path = "/bkt" if q and q[0] in ("uploads", "location", "logging", "lifecycle", "versioning", "versions", "website", "policy", "notification", "requestPayment", "delete") else "/bkt/key"
         res = ctx["replay_tool"](["sigv2", path] + q)
